@@ -1875,7 +1875,10 @@ def note_array_from_part_list(
         ]
         lcm = np.lcm.reduce(divs_per_parts)
         time_multiplier_per_part = [int(lcm / d) for d in divs_per_parts]
-        for na, time_mult in zip(note_array, time_multiplier_per_part):
+        # (parts without notes have no divs_pq entry: pair the multipliers
+        # with the non-empty arrays only)
+        non_empty = [part_na for part_na in note_array if len(part_na)]
+        for na, time_mult in zip(non_empty, time_multiplier_per_part):
             na["onset_div"] = na["onset_div"] * time_mult
             na["duration_div"] = na["duration_div"] * time_mult
             na["divs_pq"] = na["divs_pq"] * time_mult
